@@ -232,6 +232,8 @@ class FromVectorMonitor(taps.Monitor):
                 if is_alignment(o):
                     return
                 why = diff(o, r, rtol=1e-10, atol=1e-12)
+                if why and why.startswith("dtype differs at ._h_matrix") and np.asarray(o.h_matrix).dtype.kind in "iu":
+                    why = None          # (a matrix written in whole numbers comes back as the same numbers - judged above - in floating point)
             elif isinstance(o, mi.MaskedImage):
                 why = None
                 if not np.array_equal(o.mask.pixels, r.mask.pixels):
@@ -248,6 +250,9 @@ class FromVectorMonitor(taps.Monitor):
                     why = diff(la, lb)
             else:
                 why = diff(o, r)
+                if why and "_h_matrix" in why and np.asarray(getattr(o, "_h_matrix", 0.0)).dtype.kind in "iu" and \
+                        np.array_equal(np.asarray(o._h_matrix, dtype=float), np.asarray(getattr(r, "_h_matrix", np.nan), dtype=float)):
+                    why = None          # (a matrix written in whole numbers comes back as the same numbers in floating point)
             if why:
                 mech = "landmarks" if "_landmarks" in why or "landmark" in why else why.split(" at ")[-1].split(" ")[0][:40]
                 ctx.fail("round_trip_lost_state", cls=cls, mech=mech, why=why)
@@ -320,7 +325,7 @@ def make_object(rng, i):
         if rng.random() < 0.3:
             o.path = "somewhere/file.png"
         return o, (cls, d, np.dtype(dt).name if cls != "BooleanImage" else "bool", mk if cls != "Image" else "-", nlm)
-    K = tx.HOMOG + ["NonSquareHomogeneous", "FortranHomogeneous", "WholeNumberTranslation", "ScaleWithHistory"]
+    K = tx.HOMOG + ["NonSquareHomogeneous", "FortranHomogeneous", "WholeNumberTranslation", "ScaleWithHistory", "IntAffine", "IntHomogeneous", "IntSimilarity"]
     kind = K[(i // 3) % len(K)]
     d = 2 + (i // (3 * len(K))) % 2
     if kind == "NonSquareHomogeneous":
